@@ -125,7 +125,11 @@ func (wal *BaseWAL) OnStart() error {
 	size, err := wal.group.Head.Size()
 	if err != nil {
 		return err
-	} else if size == 0 {
+	} else if size == 0 && wal.group.MinIndex() == wal.group.MaxIndex() {
+		// A new WAL starts with the marker that precedes the initial height. An empty head
+		// next to rotated files is a WAL that was reopened right after a rotation: a second
+		// "#ENDHEIGHT 0" there would be found first by a replay of the initial height and
+		// hide everything recorded before it.
 		if err := wal.WriteSync(EndHeightMessage{0}); err != nil {
 			return err
 		}
